@@ -7,6 +7,7 @@
 import Pdlv.Cxx
 import Pdlv.Lemmas.PyAgree
 import Pdlv.Thm.C01
+import Pdlv.Lemmas.CxxVals
 
 namespace Pdlv
 namespace Cxx
@@ -328,6 +329,44 @@ theorem subModifier_id (all : Items) (hall : ModFree all) (id : String) (hid : i
       · exact absurd h hid
       · subst h; simp
 
+/-- a statically counted array of scalars in a padded slot it fits: the emitted code checks `n * w` octets, reads,
+    and skips what is left of the padding; the reference parses from the first `p` octets -/
+theorem padded_scalar_ref (c : Cfg) (all rest : Items) (id : String) (w' n p : Nat) (hnp : n * (w' / 8) ≤ p)
+    (hall : ModFree all) (hid : id ≠ "_payload_") (bs : Bytes) (st : DState) :
+    Refines (Cxx.decItem c all rest (.array id (.scalar w') (.static (w' / 8)) (.static n) (some p)) bs st)
+      (Pdlv.decItem (ideal c) (.array id (.scalar w') (.static (w' / 8)) (.static n) (some p)) bs st) := by
+  have hk : arrayKeysOk (.static (w' / 8)) (.static n) (st.ctx.get (.count id)) (st.ctx.get (.size id)) (st.ctx.get (.esize id)) = true := rfl
+  have hf : decElem c (.scalar w') = scalarEl c.e w' := by
+    funext b; simp [decElem, rawRead_eq, scalarEl]
+  simp only [Cxx.decItem, Pdlv.decItem, afterPad, withPad, ideal, subModifier_id all hall id hid, hk, Bool.not_true,
+    Bool.false_eq_true, ↓reduceIte, arrayFull, decArray, decTy_scalar, hf]
+  by_cases hl : bs.length < n * (w' / 8)
+  · have hlp : bs.length < p := by omega
+    simp only [hl, hlp, ↓reduceIte, Outcome.bind]
+    exact Refines.err_err _ _
+  · have hle : n * (w' / 8) ≤ bs.length := by omega
+    simp only [hl, ↓reduceIte, decRepeat_vals c.e w' n bs hle, Outcome.bind, List.length_drop]
+    have hcons : bs.length - (bs.length - n * (w' / 8)) = n * (w' / 8) := by omega
+    rw [hcons]
+    by_cases hlp : bs.length < p
+    · have h1 : n * (w' / 8) < p := by omega
+      have h2 : bs.length - n * (w' / 8) < p - n * (w' / 8) := by omega
+      simp only [h1, h2, hlp, ↓reduceIte]
+      exact Refines.err_err _ _
+    · have htk : n * (w' / 8) ≤ (bs.take p).length := by rw [List.length_take]; omega
+      have hnl : ¬ (bs.take p).length < n * (w' / 8) := by omega
+      simp only [hlp, ↓reduceIte, hnl, decRepeat_vals c.e w' n (bs.take p) htk, unwrapArr, vals_length,
+        vals_take c.e w' n bs p hnp]
+      by_cases h1 : n * (w' / 8) < p
+      · have h2 : ¬ (bs.length - n * (w' / 8) < p - n * (w' / 8)) := by omega
+        simp only [h1, h2, ↓reduceIte, List.drop_drop]
+        have : n * (w' / 8) + (p - n * (w' / 8)) = p := by omega
+        rw [this]
+        exact Refines.rfl _
+      · have : n * (w' / 8) = p := by omega
+        simp only [this, Nat.lt_irrefl, ↓reduceIte]
+        exact Refines.rfl _
+
 mutual
 theorem ty_ref (c : Cfg) : ∀ (ty : Ty), wfTy ty = true → isStruct ty = true → ∀ bs, bs.length < usizeMax →
     Refines (decElem c ty bs) (Pdlv.decTy (ideal c) ty bs)
@@ -423,9 +462,24 @@ theorem item_ref (c : Cfg) (all rest : Items) (hall : ModFree all) : ∀ (i : It
         exact Refines.rfl _
     | undelimited => simp [wfItem] at hw
   | .array id elem ew shape pad, hw, bs, st, hb => by
-    simp only [wfItem, Bool.and_eq_true, Option.isNone_iff_eq_none, bne_iff_ne, ne_eq] at hw
+    simp only [wfItem, Bool.and_eq_true, bne_iff_ne, ne_eq] at hw
     obtain ⟨⟨⟨hpad, hidp⟩, hwt⟩, hshape⟩ := hw
-    subst hpad
+    cases pad with
+    | some p =>
+      cases elem with
+      | scalar w' =>
+        cases ew with
+        | static w =>
+          cases shape with
+          | static n =>
+            simp only [padOk, Bool.and_eq_true, beq_iff_eq, decide_eq_true_eq] at hpad
+            obtain ⟨hw8, hnp⟩ := hpad
+            subst hw8
+            exact padded_scalar_ref c all rest id w' n p hnp hall hidp bs st
+          | _ => simp [padOk] at hpad
+        | _ => simp [padOk] at hpad
+      | _ => simp [padOk] at hpad
+    | none =>
     have hnc : ∀ nm w, elem ≠ .custom nm w := by
       intro nm w h; subst h; simp [wfTy] at hwt
     have hnd : ew ≠ .dynamic := by
